@@ -194,6 +194,8 @@ def add_arg(text, names, extra, count=None):
     """append `extra` as last argument to every call `name(...)` for name in names."""
     k = 0
     pos = 0
+    if "call" in names and "oneshot" not in names:
+        names = list(names) + ["oneshot"]   # tower::ServiceExt::oneshot is the other way a layer invokes its inner service
     pat = re.compile(r"(?<![\w])(%s)\s*(::<[^()]*>)?\s*\(" % "|".join(re.escape(x) for x in names))
     while True:
         m = mask(text)
